@@ -77,7 +77,10 @@ func DrawSecretValue(t *rapid.T) cty.Value {
 		v, _ := cty.ParseNumberVal(rapid.SampledFrom(CanaryNumbers).Draw(t, "canarynum"))
 		return v
 	}
-	switch rapid.IntRange(0, 9).Draw(t, "secretshape") {
+	switch rapid.IntRange(0, 10).Draw(t, "secretshape") {
+	case 10:
+		// the secret is the name of the only attribute (what `{(secret) = 1}` produces)
+		return cty.ObjectVal(map[string]cty.Value{rapid.SampledFrom(CanaryStrings).Draw(t, "canaryattr"): num()})
 	case 0, 1, 2:
 		return str()
 	case 3, 4:
